@@ -99,13 +99,93 @@ fn ring_of(peers: &[PeerSpec], only_dc: Option<u32>) -> Vec<(i64, usize)> {
     let mut r: Vec<(i64, usize)> = Vec::new();
     for (i, p) in peers.iter().enumerate() {
         if only_dc.is_none() || p.dc == only_dc {
+            // a node is its host id: rows repeating an id (`d` cases) are the node of the first such row
+            let canon = peers.iter().position(|q| q.id == p.id).unwrap_or(i);
             for t in &p.tokens {
-                r.push((norm_token(*t), i));
+                r.push((norm_token(*t), canon));
             }
         }
     }
     r.sort_by_key(|e| e.0);
     r
+}
+
+/// Topology of a `d` case: as `parse_topology`, but a host id may be listed more than once; rows with one id must
+/// agree on datacenter, rack and flags (they describe one node).
+fn parse_topology_rep(s: &str) -> Option<Vec<PeerSpec>> {
+    if s == "-" {
+        return Some(vec![]);
+    }
+    let mut out: Vec<PeerSpec> = Vec::new();
+    for p in s.split(';') {
+        if p == "-" {
+            return None;
+        }
+        out.append(&mut parse_topology(p)?);
+    }
+    for a in &out {
+        for b in &out {
+            if a.id == b.id && (a.dc != b.dc || a.rack != b.rack || a.flags != b.flags) {
+                return None;
+            }
+        }
+    }
+    Some(out)
+}
+
+/// Index from which the hooks derived a node's address (`127.0.(i / 250).(i % 250 + 1)`).
+fn addr_index(n: &scylla::cluster::Node) -> u64 {
+    match n.address.ip() {
+        std::net::IpAddr::V4(a) => a.octets()[2] as u64 * 250 + a.octets()[3] as u64 - 1,
+        _ => u64::MAX,
+    }
+}
+
+/// `d` cases: what the state holds for a peer list that repeats host ids.  Returns ` ring=.. known=..`.
+/// Oracle (from the property: "for every token ring, node placement"): the ring holds exactly the rows' tokens under
+/// the rows' host ids, sorted by token; every node object in the ring carries its row's datacenter and rack; the known
+/// nodes are the rows' host ids, once each.
+fn observe_repeated(cs: &ClusterState, peers: &[PeerSpec], label: &str, ctx: &mut Ctx) -> String {
+    let ring: Vec<(i64, &std::sync::Arc<scylla::cluster::Node>)> =
+        cs.replica_locator().ring().iter().map(|(t, n)| (t.value(), n)).collect();
+    if ring.windows(2).any(|w| w[0].0 > w[1].0) {
+        ctx.fail(format!("{}: the ring is not sorted by token", label));
+    }
+    let mut got: Vec<(i64, u64)> = ring.iter().map(|(t, n)| (*t, node_id(n.host_id))).collect();
+    let mut want: Vec<(i64, u64)> = peers.iter().flat_map(|p| p.tokens.iter().map(|t| (norm_token(*t), p.id))).collect();
+    got.sort_unstable();
+    want.sort_unstable();
+    if got != want {
+        ctx.fail(format!("{}: the ring holds (token, host) {:?}, the peer rows say {:?}", label, got, want));
+    }
+    for (_, n) in &ring {
+        let id = node_id(n.host_id);
+        if let Some(p) = peers.iter().find(|p| p.id == id) {
+            if n.datacenter != p.dc.map(dc_name) || n.rack != p.rack.map(rack_name) {
+                ctx.fail(format!("{}: ring node {} has datacenter {:?} rack {:?}, its rows say {:?} {:?}", label, id, n.datacenter, n.rack, p.dc, p.rack));
+            }
+        }
+    }
+    let mut known: Vec<(u64, u64)> = cs.get_nodes_info().iter().map(|n| (node_id(n.host_id), addr_index(n))).collect();
+    known.sort_unstable();
+    let mut ids: Vec<u64> = peers.iter().map(|p| p.id).collect();
+    ids.sort_unstable();
+    ids.dedup();
+    if known.iter().map(|k| k.0).collect::<Vec<_>>() != ids {
+        ctx.fail(format!("{}: known nodes {:?}, the peer rows list the hosts {:?}", label, known, ids));
+    }
+    for (id, _) in &known {
+        let by_id = cs.get_node_by_host_id(host_id(*id)).map(|n| node_id(n.host_id));
+        if by_id != Some(*id) {
+            ctx.fail(format!("{}: get_node_by_host_id({}) = {:?}", label, id, by_id));
+        }
+    }
+    let show = |v: Vec<String>| if v.is_empty() { "-".to_owned() } else { v.join(",") };
+    format!(
+        " ring={} known={}",
+        show(ring.iter().map(|(_, n)| format!("{}@{}", node_id(n.host_id), addr_index(n))).collect()),
+        show(known.iter().map(|(i, a)| format!("{}@{}", i, a)).collect())
+    )
 }
 
 /// Distinct nodes clockwise from the token: owners of tokens >= tok in ascending order, then the rest.
@@ -340,7 +420,7 @@ pub fn run(case: &str, ctx: &mut Ctx) -> String {
     if w.is_empty() {
         return "bad-case".into();
     }
-    if w[0].starts_with('h') {
+    if w[0].starts_with('h') || w[0].starts_with('d') {
         return run_history(&w, ctx);
     }
     if matches!(w[0], "p" | "v" | "s" | "m") {
@@ -365,6 +445,8 @@ pub fn run(case: &str, ctx: &mut Ctx) -> String {
 /// `F` / `G` = the same with a per-peer verdict (peer flag `a` = accepted) and no clearing of the old nodes' enabled-ness.  After EVERY step all observations are made on the refreshed state and compared with a cluster
 /// built from scratch from the same metadata, and with the placement rules.
 fn run_history(w: &[&str], ctx: &mut Ctx) -> String {
+    // `d` cases: a host id may be repeated within one peer list
+    let repeated = w[0].starts_with('d');
     let Some(n) = w.get(1).and_then(|x| x.parse::<usize>().ok()) else { return "bad-case".into() };
     if n == 0 || w.len() != 2 + 3 * n + 3 {
         return "bad-case".into();
@@ -383,7 +465,7 @@ fn run_history(w: &[&str], ctx: &mut Ctx) -> String {
     let mut prev_peers: Vec<PeerSpec> = Vec::new();
     for i in 0..n {
         let (mode, topo_s, step_pre) = (w[2 + 3 * i], w[3 + 3 * i], w[4 + 3 * i]);
-        let Some(peers) = parse_topology(topo_s) else { return "bad-case".into() };
+        let Some(peers) = (if repeated { parse_topology_rep(topo_s) } else { parse_topology(topo_s) }) else { return "bad-case".into() };
         key = format!("{} {} {} {}", key, mode, topo_s, step_pre);
         match (mode, &state) {
             ("n", None) | ("r", Some(_)) | ("R", Some(_)) | ("F", Some(_)) => {
@@ -462,7 +544,8 @@ fn run_history(w: &[&str], ctx: &mut Ctx) -> String {
         };
         let label = format!("after step {} ({})", i + 1, mode);
         let obs = check_state(&cs, Some(&label), topo_s, &peers, &pre_s, &pre, tail[0], &strat, dc, tok, ctx);
-        lines.push(format!("{} arms={} pool={}", obs, arms, pools));
+        let extra = if repeated { observe_repeated(&cs, &peers, &label, ctx) } else { String::new() };
+        lines.push(format!("{} arms={} pool={}{}", obs, arms, pools, extra));
         state = Some(cs);
         prev_peers = peers;
     }
@@ -920,13 +1003,50 @@ fn share_addresses(rng: &mut Rng, peers: &mut [PeerSpec]) {
     }
 }
 
-fn emit_history(rng: &mut Rng, shape: TopoShape, emit: &mut dyn FnMut(String)) {
+/// The peer list as written in a `d` case: one or two rows are listed a second time under the same host id (same
+/// datacenter, rack, flags; another position = another address) - without tokens (a stale row), with the same tokens,
+/// or with tokens of their own.
+fn with_repeats(rng: &mut Rng, peers: &[PeerSpec]) -> Vec<PeerSpec> {
+    let mut out = peers.to_vec();
+    if out.is_empty() {
+        return out;
+    }
+    let mut used: Vec<i64> = peers.iter().flat_map(|p| p.tokens.iter().map(|t| norm_token(*t))).collect();
+    for _ in 0..rng.range(1, 2) {
+        let i = rng.below(out.len() as u64) as usize;
+        let mut dup = out[i].clone();
+        match rng.below(5) {
+            0 => dup.tokens = vec![],
+            1 => {}
+            _ => {
+                dup.tokens = (0..rng.range(1, 2))
+                    .map(|_| loop {
+                        let t = rng.range(-95, 95);
+                        if !used.contains(&t) {
+                            used.push(t);
+                            break t;
+                        }
+                    })
+                    .collect()
+            }
+        }
+        // most often AFTER the original: the object `known_nodes` keeps is then the repeated row's
+        let at = if rng.chance(1, 2) { out.len() } else { rng.below(out.len() as u64 + 1) as usize };
+        out.insert(at, dup);
+    }
+    out
+}
+
+fn emit_history(rng: &mut Rng, shape: TopoShape, repeated: bool, emit: &mut dyn FnMut(String)) {
     let mut peers = gen_topology(rng, shape);
     // production-like histories: enabled-ness always equals the real pool presence (built with every node rejected
     // = disabled, then only per-peer-verdict refreshes in which a node is enabled iff accepted), so that the oracle
     // "pool iff accepted in the last refresh" applies at every step
     let prodlike = rng.chance(1, 3);
-    share_addresses(rng, &mut peers);
+    // (`d` cases: every row keeps the address of its position, so that the rows of one host id differ in address)
+    if !repeated {
+        share_addresses(rng, &mut peers);
+    }
     if prodlike {
         for p in peers.iter_mut() {
             p.flags = format!("d{}", p.flags);
@@ -935,9 +1055,12 @@ fn emit_history(rng: &mut Rng, shape: TopoShape, emit: &mut dyn FnMut(String)) {
     let mut next_id = 500u64;
     let n = rng.range(2, 5) as usize; // the build + 1..4 refreshes
     let mut pre: Vec<Strat> = (0..rng.range(0, 2)).map(|_| gen_strategy(rng, &peers)).collect();
-    let mut words: Vec<String> = vec![format!("n {} {}", fmt_topology(&peers), fmt_strategies(&pre))];
+    // what is written: in a `d` case the list with some host ids repeated (not at every step)
+    let written_peers = |rng: &mut Rng, peers: &[PeerSpec]| if repeated && rng.chance(3, 4) { with_repeats(rng, peers) } else { peers.to_vec() };
+    let first = written_peers(rng, &peers);
+    let mut words: Vec<String> = vec![format!("n {} {}", fmt_topology(&first), fmt_strategies(&pre))];
     let mut modes = String::from("n");
-    let mut topologies: Vec<Vec<PeerSpec>> = vec![peers.clone()];
+    let mut topologies: Vec<Vec<PeerSpec>> = vec![first];
     for _ in 1..n {
         for _ in 0..rng.range(1, 2) {
             mutate(rng, &mut peers, shape.max_racks as u32, &mut next_id);
@@ -954,9 +1077,10 @@ fn emit_history(rng: &mut Rng, shape: TopoShape, emit: &mut dyn FnMut(String)) {
                 p.flags = format!("{}{}{}", if acc { "a" } else { "" }, if en { "" } else { "d" }, grp);
             }
         }
+        let written_now = written_peers(rng, &peers);
         if rng.chance(1, 3) {
             let m = if filter_mode == 2 { 'G' } else if accepting { 'T' } else { 't' };
-            words.push(format!("{} {} =", m, fmt_topology(&peers)));
+            words.push(format!("{} {} =", m, fmt_topology(&written_now)));
             modes.push(m);
         } else {
             if rng.chance(1, 2) {
@@ -972,10 +1096,10 @@ fn emit_history(rng: &mut Rng, shape: TopoShape, emit: &mut dyn FnMut(String)) {
             if rng.chance(1, 8) {
                 written.push(None);
             }
-            words.push(format!("{} {} {}", m, fmt_topology(&peers), fmt_fetched(&written)));
+            words.push(format!("{} {} {}", m, fmt_topology(&written_now), fmt_fetched(&written)));
             modes.push(m);
         }
-        topologies.push(peers.clone());
+        topologies.push(written_now);
     }
     let mut toks: Vec<i64> = topologies.iter().flat_map(|t| query_tokens(t)).collect();
     toks.sort_unstable();
@@ -994,7 +1118,7 @@ fn emit_history(rng: &mut Rng, shape: TopoShape, emit: &mut dyn FnMut(String)) {
         for _ in 0..4 {
             let tok = *rng.pick(&toks);
             let dc = if rng.chance(2, 3) || dcs.is_empty() { "-".to_owned() } else { rng.pick(&dcs).to_string() };
-            emit(format!("h{}{} {} {} {} {} {}", &ss[..1], modes, n, words.join(" "), ss, dc, tok));
+            emit(format!("{}{}{} {} {} {} {} {}", if repeated { 'd' } else { 'h' }, &ss[..1], modes, n, words.join(" "), ss, dc, tok));
         }
     }
 }
@@ -1098,7 +1222,7 @@ pub fn generate(rng: &mut Rng, tier: Tier, emit0: &mut dyn FnMut(String)) {
             1 => TopoShape { max_nodes: 8, max_dcs: 2, max_racks: 3, max_vnodes: 2, dups: 0 },
             _ => TopoShape { max_nodes: 10, max_dcs: 3, max_racks: 4, max_vnodes: 3, dups: 1 },
         };
-        emit_history(rng, shape, emit);
+        emit_history(rng, shape, false, emit);
     }
     let topologies = if quick { 5000 } else { 80_000 };
     for i in 0..topologies {
@@ -1111,5 +1235,14 @@ pub fn generate(rng: &mut Rng, tier: Tier, emit0: &mut dyn FnMut(String)) {
         let mut peers = gen_topology(rng, shape);
         share_addresses(rng, &mut peers);
         emit_topology(rng, &peers, 5, 6, emit);
+    }
+    // the same histories with host ids repeated within one peer list (`d` cases)
+    for i in 0..(if quick { 500 } else { 8_000 }) {
+        let shape = match i % 3 {
+            0 => TopoShape { max_nodes: 4, max_dcs: 1, max_racks: 3, max_vnodes: 2, dups: 0 },
+            1 => TopoShape { max_nodes: 6, max_dcs: 2, max_racks: 3, max_vnodes: 2, dups: 0 },
+            _ => TopoShape { max_nodes: 8, max_dcs: 3, max_racks: 4, max_vnodes: 2, dups: 1 },
+        };
+        emit_history(rng, shape, true, emit);
     }
 }
